@@ -233,7 +233,10 @@ func job(pkg, fn string, id string, args ...int64) sym.Job {
 // widths. STP and WAI are never first (what follows them is wake-up, outside C01).
 func twoStepPairs(tier string) [][3]int {
 	const mvp, mvn, all = 0x44, 0x54, 0xF
-	prs := [][3]int{{mvn, mvn, all}, {mvp, mvp, all}, {mvn, mvp, all}, {mvp, mvn, all}, {mvn, 0xAD, all}, {mvp, 0x8D, all}, {0xC2, mvn, all}, {0xE2, mvp, all}, {0xAB, mvn, all}, {0xEB, 0xEB, all}, {0xC2, 0xA2, all}, {0xE2, 0xC2, all}, {0x28, 0xBB, all}}
+	prs := [][3]int{{mvn, mvn, all}, {mvp, mvp, all}, {mvn, mvp, all}, {mvp, mvn, all}, {mvn, 0xAD, all}, {mvp, 0x8D, all}, {0xC2, mvn, all}, {0xE2, mvp, all}, {0xAB, mvn, all}, {0xEB, 0xEB, all}, {0xC2, 0xA2, all}, {0xE2, 0xC2, all}, {0x28, 0xBB, all},
+		// push/pull and call/return brackets: what the second restores is what the first saved
+		{0x08, 0x28, all}, {0x00, 0x40, all}, {0x02, 0x40, all}, {0x00, 0x28, all}, {0x02, 0x28, all}, {0xF4, 0x28, all}, {0x48, 0x68, all}, {0xDA, 0xFA, all}, {0x5A, 0x7A, all},
+		{0x0B, 0x2B, all}, {0x8B, 0xAB, all}, {0x4B, 0xAB, all}, {0x20, 0x60, all}, {0x22, 0x6B, all}, {0xFC, 0x60, all}, {0x48, 0x28, all}, {0x08, 0x68, all}, {0xC2, 0xE2, all}, {0xFB, 0xFB, all}, {0x1B, 0x3B, all}, {0x5B, 0x7B, all}}
 	for op := 0; op < 256; op++ {
 		if op == 0xDB || op == 0xCB {
 			continue
